@@ -129,6 +129,10 @@ func genCFile(t *rapid.T, path string, setup bool) CFile {
 		f.Lines = []CLine{{K: rapid.SampledFrom([]string{"sig", "version", "other"}).Draw(t, "onelinek"), T: confOther[0], V: initial}}
 		return f
 	}
+	if rapid.IntRange(0, 5).Draw(t, "directivefirst") == 0 {
+		// the banner does not open the file: a directive stands in front of it
+		f.Lines = append(f.Lines, CLine{K: "other", T: "SecRuleEngine DetectionOnly"})
+	}
 	f.Lines = append(f.Lines, CLine{K: "other", T: confOther[0]})
 	if rapid.IntRange(0, 4).Draw(t, "hasver") != 0 {
 		f.Lines = append(f.Lines, CLine{K: rapid.SampledFrom([]string{"version", "version", "version-long"}).Draw(t, "verk"), V: initial})
@@ -149,6 +153,13 @@ func genCFile(t *rapid.T, path string, setup bool) CFile {
 			f.Lines = append(f.Lines, CLine{K: "sig", V: initial})
 		case k == 4:
 			f.Lines = append(f.Lines, CLine{K: rapid.SampledFrom([]string{"ver+setup", "ver+ver"}).Draw(t, "combo"), V: initial})
+		case k == 5 && i%2 == 0:
+			// banner lines again further down (two files pasted together, a banner behind the first directive)
+			if rapid.Bool().Draw(t, "lateverk") {
+				f.Lines = append(f.Lines, CLine{K: rapid.SampledFrom([]string{"version", "version-long"}).Draw(t, "latever"), V: initial})
+			} else {
+				f.Lines = append(f.Lines, CLine{K: rapid.SampledFrom([]string{"year", "year-long"}).Draw(t, "lateyear"), V: rapid.SampledFrom([]string{"2024", "2021", "2023"}).Draw(t, "lateinityear")})
+			}
 		case k == 3 && setup:
 			f.Lines = append(f.Lines, CLine{K: "setup", T: rapid.SampledFrom([]string{"    \x00\"", "    \x00,\\", "  \x00,setvar:tx.a=1\""}).Draw(t, "setupctx"), V: onlyDigits(initial)})
 		default:
